@@ -311,6 +311,10 @@ impl RawSnap {
             let id = key_to_id(key);
             let diff = &delta.buf[to_usize(offset.clone())];
             let out = self.prepare_item(raw_type_id, id, diff.len())?;
+            if out.len() != diff.len() {
+                // The item exists in `from` with a different size.
+                return Err(Error::DeltaDifferingSizes);
+            }
             let in_ = from.item(raw_type_id, id);
 
             apply_item_delta(in_, diff, out)?;
